@@ -35,7 +35,7 @@ type File struct {
 }
 
 type Program struct {
-	Files []*File `json:"files"`
+	Files []*File        `json:"files"`
 	Stats map[string]int `json:"stats"`
 }
 
@@ -62,9 +62,9 @@ type sym struct {
 	name string
 	kind string // enum struct union exception typedef const service
 	// for typedef: target type text (as seen from its own file) and class
-	class string // base | container | enum | struct  (what values of this type look like)
+	class    string // base | container | enum | struct  (what values of this type look like)
 	enumVals []string
-	target *typ
+	target   *typ
 }
 
 type typ struct {
@@ -77,19 +77,19 @@ type typ struct {
 }
 
 type gen struct {
-	r     Rand
-	p     *Program
-	syms  [][]*sym // per file
-	n     int
-	opts  Options
+	r    Rand
+	p    *Program
+	syms [][]*sym // per file
+	n    int
+	opts Options
 }
 
 // Options tune the size of the program.
 type Options struct {
-	MaxFiles   int
-	MaxDefs    int // per file
-	Rich       bool // more annotations / constants / services
-	Twins      bool // two files with the same base name in different directories, each included as "<base>.thrift" by a sibling
+	MaxFiles int
+	MaxDefs  int  // per file
+	Rich     bool // more annotations / constants / services
+	Twins    bool // two files with the same base name in different directories, each included as "<base>.thrift" by a sibling
 }
 
 func (g *gen) name(prefix string) string {
